@@ -309,6 +309,12 @@ HEAVY_SESSIONS = [
     ["position fen r3k2r/p1ppqpb1/bn2pnp1/3PN3/1p2P3/2N2Q1p/PPPBBPPP/R3K2R w KQkq - 0 1", "go depth 4",
      "position fen r4rk1/1pp1qppp/p1np1n2/2b1p1B1/2B1P1b1/P1NP1N2/1PP1QPPP/R4RK1 w - - 0 10", "go depth 4",
      "position startpos moves e2e4 e7e5 g1f3 b8c6 f1b5 a7a6", "go depth 5"],
+    # games whose history already contains repeated positions (the record of the game is hashed with the drawn keys)
+    ["position startpos moves g1f3 g8f6 f3g1 f6g8 g1f3 g8f6", "go depth 4",
+     "position startpos moves b1c3 b8c6 c3b1 c6b8 b1c3 b8c6 c3b1", "go depth 4", "go depth 3",
+     "position fen 4k3/8/8/8/q7/8/8/6K1 b - - 0 1 moves a4a5 g1h1 a5a6 h1g1 a6a5 g1h1 a5a6 h1g1 a6a5", "go depth 3", "go depth 5"],
+    # a table population in the hundreds of thousands of records (capacity limits, eviction order, slot collisions)
+    ["position startpos", "go depth 8", "position startpos moves e2e4 e7e5", "go depth 7"],
 ]
 
 
